@@ -83,8 +83,7 @@ THEOREMS = ["C22_continuous_spec", "C22_window_val_spec", "C22_window_val_shape"
             "C22_resample_scan", "C22_resample_live", "C22_resample_first", "C22_resample_returns_first", "C22_resample_none",
             "C22_reject_sound", "C22_resample_raise", "C22_attempt_total", "C22_resample_live_wf", "C22_synthesize_live",
             "C22_dependency_check_exact", "C22_dependency_check_direct", "C22_dependency_check_sound",
-            "C22_dependency_check_complete", "C22_dependency_check_rejects_derived",
-            "C22_dependency_check_sound_refuted", "C22_dependency_check_complete_refuted"]
+            "C22_accepted_attempt_total", "C22_dependency_check_complete", "C22_dependency_check_empty_window_refuted"]
 
 
 class GiveUp(Exception):
@@ -888,6 +887,8 @@ def dependency_programs():
     p0["blocks"][0]["constraints"].append(1)
     out.append(("constraint-without-factors", p0, "undocumented"))
     out.append(("number-dependent", prog([col, CF(100, "c0", [{"t": "num", "v": 3}])], [0, 100]), "invalid"))
+    out.append(("window-without-factors", prog([col, CF(100, "c0", [{"t": "win", "fs": [], "width": 2, "stride": 1, "start": None}])],
+                                                [0, 100]), "undocumented"))
     return out
 
 
@@ -934,7 +935,8 @@ def gen_checkdep_case(rng):
             elif r < 0.7:
                 deps.append({"t": "cont", "f": rng.choice(others)})
             else:
-                deps.append({"t": "win", "fs": [rng.choice(others)], "width": 2, "stride": 1, "start": None})
+                nw = rng.choice([0, 1, 1, 1, 2, 2])       # factors of the window (the check looks into windows)
+                deps.append({"t": "win", "fs": rng.sample(others, min(nw, len(others))), "width": 2, "stride": 1, "start": None})
         fds.append(CF(100 + j, "c%d" % j, deps))
     # dependencies must be constructible: order the factor list topologically, drop cycles
     order, placed = [], set()
@@ -1092,7 +1094,7 @@ def run(ctx, res):
                 "positions and 0-2 ContinuousConstraints (le / ge / ne / lt on 1-2 factors, bounds that fail for about a third "
                 "of the draws); RandomGen or IterateSATGen, 1-3 experiments; %d get_window_val cases (0-3 factors, width -1..4, "
                 "stride -1..3, start None/-1..5, missing keys, short lists, NaN entries); %d dependency shapes at the "
-                "constructor; 9 combinator and 14 dependency / degenerate hand-built programs.  Non-trivial = the sampled program has a "
+                "constructor; 9 combinator and 15 dependency / degenerate hand-built programs.  Non-trivial = the sampled program has a "
                 "dependent continuous factor or a ContinuousConstraint" % (ncases, nwin, ndep))
     res.assumptions.append(LEVEL_NOTE)
     res.extra["level_note"] = LEVEL_NOTE
@@ -1284,12 +1286,14 @@ def run(ctx, res):
     for sig in sorted(found):
         _, what, replay = found[sig]
         res.violations.append(Violation(sig, what, replay))
-    if mism and not found:
+    if mism:
+        # always reported: run.py prints a broken tie unless an unlisted concrete failing input explains it
+        # (known findings must not mask a broken correspondence)
         res.violations.append(Violation(
             "corr:" + mism[0][0], "model Out/Continuous.v and the real code disagree on %d cases, e.g. %r" % (len(mism), mism[0]),
             {"layer": mism[0][0], "theorems": THEOREMS, "first_mismatch": repr(mism[0])}, failing_input=False))
-    elif mism:
-        res.notes.append("correspondence also broken on %d cases, e.g. %r" % (len(mism), mism[0]))
+        if found:
+            res.notes.append("correspondence also broken on %d cases, e.g. %r" % (len(mism), mism[0]))
     if observations:
         res.notes.append("constructor observations (not C22 failures: no sequence is returned): %s" % json.dumps(
             {k: len(v) for k, v in obs.items()}, sort_keys=True))
